@@ -447,11 +447,11 @@ func c04Worker(job json.RawMessage) (any, error) {
 			res.DontCare++
 		case exp > 0 && !accepted:
 			res.V = append(res.V, rt.Violation{Property: "C04", Key: "C04/genuine-proof-rejected/" + c.via + "/" + mclass,
-				What: fmt.Sprintf("%s of %s (keyset %d, amount %d): the independent evaluator says C == k*hash_to_curve(secret) for exactly this (id, amount), but the mint refused: %v", c.via, c.mut, c.ks, p.Amount, opErr),
+				What:   fmt.Sprintf("%s of %s (keyset %d, amount %d): the independent evaluator says C == k*hash_to_curve(secret) for exactly this (id, amount), but the mint refused: %v", c.via, c.mut, c.ks, p.Amount, opErr),
 				Replay: map[string]any{"case": c, "index": i, "quick": j.Quick}})
 		case exp < 0 && accepted:
 			res.V = append(res.V, rt.Violation{Property: "C04", Key: "C04/invalid-proof-accepted/" + c.via + "/" + mclass,
-				What: fmt.Sprintf("%s accepted a proof derived from a valid one (keyset %d, amount %d) by %s: id=%q amount=%d C=%.20s… secretlen=%d — C is not k*hash_to_curve(secret) for the claimed (id, amount) / input malformed", c.via, c.ks, c.denom, c.mut, p.Id, p.Amount, p.C, len(p.Secret)),
+				What:   fmt.Sprintf("%s accepted a proof derived from a valid one (keyset %d, amount %d) by %s: id=%q amount=%d C=%.20s… secretlen=%d — C is not k*hash_to_curve(secret) for the claimed (id, amount) / input malformed", c.via, c.ks, c.denom, c.mut, p.Id, p.Amount, p.C, len(p.Secret)),
 				Replay: map[string]any{"case": c, "index": i, "quick": j.Quick}})
 		}
 		if len(res.Samples) < 2 {
